@@ -11,6 +11,8 @@ sys.path.insert(0, os.path.join(ROOT, 'vx'))
 import extract  # noqa: E402
 
 BUILD = os.path.join(ROOT, 'build', 'vx')
+import threading
+_EXTRACT_LOCK = threading.Lock()   # the extractor keeps module-level state; only the Verus runs are parallel
 
 SEMANTIC = ('postcondition not satisfied', 'precondition not satisfied', 'assertion failed',
             'possible arithmetic underflow/overflow', 'invariant not satisfied',
@@ -21,9 +23,11 @@ SEMANTIC = ('postcondition not satisfied', 'precondition not satisfied', 'assert
 UNDECIDED_HINTS = ('Resource limit', 'rlimit', 'timed out', 'not supported', 'unsupported', 'The verifier does not yet support')
 
 
-def _run_verus(path, rlimit, multiple_errors=20):
+def _run_verus(path, rlimit, multiple_errors=20, only=None):
     cmd = ['verus', path, '--output-json', '--time', '--multiple-errors', str(multiple_errors), '--rlimit', str(rlimit),
            '--error-format=json', '--no-report-long-running']
+    if only:
+        cmd += ['--verify-root', '--verify-function', only]
     t0 = time.time()
     p = subprocess.run(cmd, cwd=os.path.dirname(path), stdout=subprocess.PIPE, stderr=subprocess.PIPE, text=True)
     dt = time.time() - t0
@@ -70,11 +74,16 @@ def run_unit(unit, rlimit=30, vacuity=True):
            'discharged': 0, 'smt_ms': 0, 'wall_s': 0.0, 'vacuity': None}
     t0 = time.time()
     try:
-        extract._sources.clear()
-        text, info = extract.build_unit(upath, vacuity=False)
-        vtext, vinfo = (extract.build_unit(upath, vacuity=True) if vacuity else (None, None))
+        with _EXTRACT_LOCK:
+            extract._sources.clear()
+            text, info = extract.build_unit(upath, vacuity=False)
+            vtext, vinfo = (extract.build_unit(upath, vacuity=True) if vacuity else (None, None))
     except (extract.ExtractError, extract.ScanError) as e:
         res['reason'] = 'extraction: %s' % e
+        res['wall_s'] = time.time() - t0
+        return res
+    except Exception as e:   # extractor bug / unexpected source shape: undecided, never an alarm
+        res['reason'] = 'extraction (internal): %r' % e
         res['wall_s'] = time.time() - t0
         return res
     gen = os.path.join(BUILD, unit, unit + '.rs')
@@ -94,7 +103,7 @@ def run_unit(unit, rlimit=30, vacuity=True):
         if vacuity:
             vgen = os.path.join(BUILD, unit, unit + '_vacuity.rs')
             open(vgen, 'w').write(vtext)
-            vfut = ex.submit(_run_verus, vgen, 2, 0)   # a twin that hits the resource limit is 'not verified', which is what the guard wants
+            vfut = ex.submit(_run_verus, vgen, 2, 0, '*vacuity__*')   # a twin that hits the resource limit is 'not verified', which is what the guard wants
         r = fut.result()
         vr = vfut.result() if vfut else None
     res['checker_cmd'] = r['cmd']
@@ -167,6 +176,8 @@ def run_unit(unit, rlimit=30, vacuity=True):
             checked += 1
             if any(n.split('::')[-1] == 'vacuity__' + f['name'] for n in ok_names):
                 vac.append(f['path'])
+            elif not any(x['function'].split('::')[-1] == 'vacuity__' + f['name'] for x in vfb):
+                vac.append(f['path'] + ' (twin missing from the vacuity run)')
         res['vacuity'] = {'checked': checked, 'vacuous': vac, 'ran': vj is not None and bool(vfb)}
         if res['status'] == 'verified' and (vac or not res['vacuity']['ran']):
             res['status'] = 'undecided'
